@@ -1,5 +1,5 @@
 (* C11 -- navigation and iterators agree with the tree: every parsed document is an arena (Arena' d t:
-   the pre-order encoding of a well-formed document tree, NavParse.v), and on every arena each link accessor, axis, element variant, text/tail, root_element
+   the pre-order encoding of a well-formed document tree, NavParse.v), and on every such arena (Arena', the form parse yields: up to u32::MAX nodes) each link accessor, axis, element variant, text/tail, root_element
    and iterator of the model's API is the corresponding function of t, and the double-ended iterators
    implement the deque specification for every sequence of operations.
    Statements are pinned here (copied verbatim from the proof files by tools/pin_props.py);
@@ -11,7 +11,27 @@ From RX Require Import Generated.
 From RX.Model Require Import Base CharClass Stream Tokenizer Doc Builder Parse Api.
 From RX.Spec Require Import Tree Deque.
 From RX.Proofs Require Import NavEnc NavLinks NavIter NavAxes NavElem NavParse.
+From RX.Proofs Require ApiViewAcc ApiView ApiViewProofs.
 Open Scope N_scope.
+
+(* ---- Proofs/ApiViewProofs.v ---- *)
+Module G0.
+Import RX.Proofs.ApiViewAcc. Import RX.Proofs.ApiView. Import RX.Proofs.ApiViewProofs.
+Theorem C11_api_view_agrees :
+  forall text opt d,
+  valid_utf8_b text = true -> nodes_limit opt <= u32_max -> parse text opt = Ok d ->
+  api_view text d = CstNsView.view text d.
+Proof. exact api_view_agrees. Qed.
+Print Assumptions C11_api_view_agrees.
+
+Theorem C11_api_view_defined :
+  forall text opt d,
+  valid_utf8_b text = true -> nodes_limit opt <= u32_max -> parse text opt = Ok d ->
+  exists vs, api_view_res text d = Ok vs /\ CstNsView.view text d = Some vs.
+Proof. exact api_view_defined. Qed.
+Print Assumptions C11_api_view_defined.
+
+End G0.
 
 (* ---- Proofs/NavLinks.v ---- *)
 Theorem C11_table_ids :
@@ -20,61 +40,61 @@ Theorem C11_table_ids :
 Proof. exact table_ids. Qed.
 Print Assumptions C11_table_ids.
 
-Theorem C11_nav_parent :
+Theorem C11_nav_parent' :
   forall d t id par s,
-  Arena d t -> In (id, par, s) (table t) -> parent d id = Ok par.
-Proof. exact nav_parent. Qed.
-Print Assumptions C11_nav_parent.
+  Arena' d t -> In (id, par, s) (table t) -> parent d id = Ok par.
+Proof. exact nav_parent'. Qed.
+Print Assumptions C11_nav_parent'.
 
-Theorem C11_nav_has_children :
+Theorem C11_nav_has_children' :
   forall d t id par s,
-  Arena d t -> In (id, par, s) (table t) ->
+  Arena' d t -> In (id, par, s) (table t) ->
   has_children d id = Ok (negb (match tchildren s with [] => true | _ => false end)).
-Proof. exact nav_has_children. Qed.
-Print Assumptions C11_nav_has_children.
+Proof. exact nav_has_children'. Qed.
+Print Assumptions C11_nav_has_children'.
 
-Theorem C11_nav_first_child :
+Theorem C11_nav_first_child' :
   forall d t id par s,
-  Arena d t -> In (id, par, s) (table t) ->
+  Arena' d t -> In (id, par, s) (table t) ->
   first_child d id = Ok (hd_error (child_ids (id + 1) (tchildren s))).
-Proof. exact nav_first_child. Qed.
-Print Assumptions C11_nav_first_child.
+Proof. exact nav_first_child'. Qed.
+Print Assumptions C11_nav_first_child'.
 
-Theorem C11_nav_last_child :
+Theorem C11_nav_last_child' :
   forall d t id par s,
-  Arena d t -> In (id, par, s) (table t) ->
+  Arena' d t -> In (id, par, s) (table t) ->
   last_child d id = Ok (hd_error (rev (child_ids (id + 1) (tchildren s)))).
-Proof. exact nav_last_child. Qed.
-Print Assumptions C11_nav_last_child.
+Proof. exact nav_last_child'. Qed.
+Print Assumptions C11_nav_last_child'.
 
-Theorem C11_nav_prev_sibling :
+Theorem C11_nav_prev_sibling' :
   forall d t id par s,
-  Arena d t -> In (id, par, s) (table t) ->
+  Arena' d t -> In (id, par, s) (table t) ->
   prev_sibling d id = Ok (hd_error (rev (before N.eqb id (sibling_ids t id par)))).
-Proof. exact nav_prev_sibling. Qed.
-Print Assumptions C11_nav_prev_sibling.
+Proof. exact nav_prev_sibling'. Qed.
+Print Assumptions C11_nav_prev_sibling'.
 
-Theorem C11_nav_next_sibling :
+Theorem C11_nav_next_sibling' :
   forall d t id par s,
-  Arena d t -> In (id, par, s) (table t) ->
+  Arena' d t -> In (id, par, s) (table t) ->
   next_sibling d id = Ok (hd_error (after N.eqb id (sibling_ids t id par))).
-Proof. exact nav_next_sibling. Qed.
-Print Assumptions C11_nav_next_sibling.
+Proof. exact nav_next_sibling'. Qed.
+Print Assumptions C11_nav_next_sibling'.
 
-Theorem C11_nav_descendants :
+Theorem C11_nav_descendants' :
   forall d t id par s,
-  Arena d t -> In (id, par, s) (table t) ->
+  Arena' d t -> In (id, par, s) (table t) ->
   descendants d id = Ok {| it_lo := id; it_hi := id + size s |}.
-Proof. exact nav_descendants. Qed.
-Print Assumptions C11_nav_descendants.
+Proof. exact nav_descendants'. Qed.
+Print Assumptions C11_nav_descendants'.
 
 (* ---- Proofs/NavIter.v ---- *)
-Theorem C11_nav_children :
+Theorem C11_nav_children' :
   forall d t id par s,
-  Arena d t -> In (id, par, s) (table t) ->
+  Arena' d t -> In (id, par, s) (table t) ->
   children_list d id = Ok (child_ids (id + 1) (tchildren s)).
-Proof. exact nav_children. Qed.
-Print Assumptions C11_nav_children.
+Proof. exact nav_children'. Qed.
+Print Assumptions C11_nav_children'.
 
 Theorem C11_children_deque :
   forall d t id par s ops it,
@@ -92,40 +112,40 @@ Proof. exact slice_deque. Qed.
 Print Assumptions C11_slice_deque.
 
 (* ---- Proofs/NavAxes.v ---- *)
-Theorem C11_nav_ancestors :
+Theorem C11_nav_ancestors' :
   forall d t id par s,
-  Arena d t -> In (id, par, s) (table t) ->
+  Arena' d t -> In (id, par, s) (table t) ->
   axis_list d AxAncestors id = Ok (id :: ancestor_ids t par).
-Proof. exact nav_ancestors. Qed.
-Print Assumptions C11_nav_ancestors.
+Proof. exact nav_ancestors'. Qed.
+Print Assumptions C11_nav_ancestors'.
 
-Theorem C11_nav_next_siblings :
+Theorem C11_nav_next_siblings' :
   forall d t id par s,
-  Arena d t -> In (id, par, s) (table t) ->
+  Arena' d t -> In (id, par, s) (table t) ->
   axis_list d AxNextSiblings id = Ok (id :: after N.eqb id (sibling_ids t id par)).
-Proof. exact nav_next_siblings. Qed.
-Print Assumptions C11_nav_next_siblings.
+Proof. exact nav_next_siblings'. Qed.
+Print Assumptions C11_nav_next_siblings'.
 
-Theorem C11_nav_prev_siblings :
+Theorem C11_nav_prev_siblings' :
   forall d t id par s,
-  Arena d t -> In (id, par, s) (table t) ->
+  Arena' d t -> In (id, par, s) (table t) ->
   axis_list d AxPrevSiblings id = Ok (id :: rev (before N.eqb id (sibling_ids t id par))).
-Proof. exact nav_prev_siblings. Qed.
-Print Assumptions C11_nav_prev_siblings.
+Proof. exact nav_prev_siblings'. Qed.
+Print Assumptions C11_nav_prev_siblings'.
 
-Theorem C11_nav_first_children :
+Theorem C11_nav_first_children' :
   forall d t id par s,
-  Arena d t -> In (id, par, s) (table t) ->
+  Arena' d t -> In (id, par, s) (table t) ->
   axis_list d AxFirstChildren id = Ok (first_chain id s).
-Proof. exact nav_first_children. Qed.
-Print Assumptions C11_nav_first_children.
+Proof. exact nav_first_children'. Qed.
+Print Assumptions C11_nav_first_children'.
 
-Theorem C11_nav_last_children :
+Theorem C11_nav_last_children' :
   forall d t id par s,
-  Arena d t -> In (id, par, s) (table t) ->
+  Arena' d t -> In (id, par, s) (table t) ->
   axis_list d AxLastChildren id = Ok (last_chain id s).
-Proof. exact nav_last_children. Qed.
-Print Assumptions C11_nav_last_children.
+Proof. exact nav_last_children'. Qed.
+Print Assumptions C11_nav_last_children'.
 
 (* ---- Proofs/NavParse.v ---- *)
 Theorem C11_parse_default_arena :
@@ -186,75 +206,75 @@ Proof. exact parse_nav_total'. Qed.
 Print Assumptions C11_parse_nav_total'.
 
 (* ---- Proofs/NavElem.v ---- *)
-Theorem C11_nav_has_siblings :
+Theorem C11_nav_has_siblings' :
   forall d t id par s,
-  Arena d t -> In (id, par, s) (table t) ->
+  Arena' d t -> In (id, par, s) (table t) ->
   has_siblings d id = Ok (negb (length (sibling_ids t id par) <=? 1)%nat).
-Proof. exact nav_has_siblings. Qed.
-Print Assumptions C11_nav_has_siblings.
+Proof. exact nav_has_siblings'. Qed.
+Print Assumptions C11_nav_has_siblings'.
 
-Theorem C11_nav_element_variants_exclude_self :
+Theorem C11_nav_element_variants_exclude_self' :
   forall d t id par s,
-  Arena d t -> In (id, par, s) (table t) ->
+  Arena' d t -> In (id, par, s) (table t) ->
   ~ In id (ancestor_ids t par) /\
   ~ In id (before N.eqb id (sibling_ids t id par)) /\
   ~ In id (after N.eqb id (sibling_ids t id par)) /\
   ~ In id (child_ids (id + 1) (tchildren s)).
-Proof. exact nav_element_variants_exclude_self. Qed.
-Print Assumptions C11_nav_element_variants_exclude_self.
+Proof. exact nav_element_variants_exclude_self'. Qed.
+Print Assumptions C11_nav_element_variants_exclude_self'.
 
-Theorem C11_nav_parent_element :
+Theorem C11_nav_parent_element' :
   forall d t id par s,
-  Arena d t -> In (id, par, s) (table t) ->
+  Arena' d t -> In (id, par, s) (table t) ->
   parent_element d id = Ok (first_elem t (ancestor_ids t par)).
-Proof. exact nav_parent_element. Qed.
-Print Assumptions C11_nav_parent_element.
+Proof. exact nav_parent_element'. Qed.
+Print Assumptions C11_nav_parent_element'.
 
-Theorem C11_nav_prev_sibling_element :
+Theorem C11_nav_prev_sibling_element' :
   forall d t id par s,
-  Arena d t -> In (id, par, s) (table t) ->
+  Arena' d t -> In (id, par, s) (table t) ->
   prev_sibling_element d id =
   Ok (first_elem t (rev (before N.eqb id (sibling_ids t id par)))).
-Proof. exact nav_prev_sibling_element. Qed.
-Print Assumptions C11_nav_prev_sibling_element.
+Proof. exact nav_prev_sibling_element'. Qed.
+Print Assumptions C11_nav_prev_sibling_element'.
 
-Theorem C11_nav_next_sibling_element :
+Theorem C11_nav_next_sibling_element' :
   forall d t id par s,
-  Arena d t -> In (id, par, s) (table t) ->
+  Arena' d t -> In (id, par, s) (table t) ->
   next_sibling_element d id = Ok (first_elem t (after N.eqb id (sibling_ids t id par))).
-Proof. exact nav_next_sibling_element. Qed.
-Print Assumptions C11_nav_next_sibling_element.
+Proof. exact nav_next_sibling_element'. Qed.
+Print Assumptions C11_nav_next_sibling_element'.
 
-Theorem C11_nav_first_element_child :
+Theorem C11_nav_first_element_child' :
   forall d t id par s,
-  Arena d t -> In (id, par, s) (table t) ->
+  Arena' d t -> In (id, par, s) (table t) ->
   first_element_child d id = Ok (first_elem t (child_ids (id + 1) (tchildren s))).
-Proof. exact nav_first_element_child. Qed.
-Print Assumptions C11_nav_first_element_child.
+Proof. exact nav_first_element_child'. Qed.
+Print Assumptions C11_nav_first_element_child'.
 
-Theorem C11_nav_last_element_child :
+Theorem C11_nav_last_element_child' :
   forall d t id par s,
-  Arena d t -> In (id, par, s) (table t) ->
+  Arena' d t -> In (id, par, s) (table t) ->
   last_element_child d id = Ok (first_elem t (rev (child_ids (id + 1) (tchildren s)))).
-Proof. exact nav_last_element_child. Qed.
-Print Assumptions C11_nav_last_element_child.
+Proof. exact nav_last_element_child'. Qed.
+Print Assumptions C11_nav_last_element_child'.
 
-Theorem C11_nav_root_element :
+Theorem C11_nav_root_element' :
   forall d t i,
-  Arena d t -> first_elem t (child_ids 1 (tchildren t)) = Some i -> root_element d = Ok i.
-Proof. exact nav_root_element. Qed.
-Print Assumptions C11_nav_root_element.
+  Arena' d t -> first_elem t (child_ids 1 (tchildren t)) = Some i -> root_element d = Ok i.
+Proof. exact nav_root_element'. Qed.
+Print Assumptions C11_nav_root_element'.
 
-Theorem C11_nav_root_element_none :
+Theorem C11_nav_root_element_none' :
   forall d t,
-  Arena d t -> first_elem t (child_ids 1 (tchildren t)) = None ->
+  Arena' d t -> first_elem t (child_ids 1 (tchildren t)) = None ->
   root_element d = Panic P_unwrap.
-Proof. exact nav_root_element_none. Qed.
-Print Assumptions C11_nav_root_element_none.
+Proof. exact nav_root_element_none'. Qed.
+Print Assumptions C11_nav_root_element_none'.
 
-Theorem C11_nav_text_storage :
+Theorem C11_nav_text_storage' :
   forall d t id par s nd,
-  Arena d t -> In (id, par, s) (table t) -> node_data_of d id = Ok nd ->
+  Arena' d t -> In (id, par, s) (table t) -> node_data_of d id = Ok nd ->
   text_storage d id =
   Ok (match nd_kind nd with
       | KElement _ _ _ _ =>
@@ -270,12 +290,12 @@ Theorem C11_nav_text_storage :
       | KText st => Some st
       | _ => None
       end).
-Proof. exact nav_text_storage. Qed.
-Print Assumptions C11_nav_text_storage.
+Proof. exact nav_text_storage'. Qed.
+Print Assumptions C11_nav_text_storage'.
 
-Theorem C11_nav_tail_storage :
+Theorem C11_nav_tail_storage' :
   forall d t id par s nd,
-  Arena d t -> In (id, par, s) (table t) -> node_data_of d id = Ok nd ->
+  Arena' d t -> In (id, par, s) (table t) -> node_data_of d id = Ok nd ->
   tail_storage d id =
   Ok (match nd_kind nd with
       | KElement _ _ _ _ =>
@@ -289,5 +309,5 @@ Theorem C11_nav_tail_storage :
         end
       | _ => None
       end).
-Proof. exact nav_tail_storage. Qed.
-Print Assumptions C11_nav_tail_storage.
+Proof. exact nav_tail_storage'. Qed.
+Print Assumptions C11_nav_tail_storage'.
